@@ -88,13 +88,9 @@ func checkC04(c *Ctx) {
 			case l.Truth && (isNil(a) || isNil(bb)) && symMentions(s, "encoding/json.Unmarshal(") && symMentions(s, "Entry.Value("):
 				need["decode ok"] = true
 			case l.Truth && ((has(oa, "record") && has(ob, "field:"+m.Token)) || (has(ob, "record") && has(oa, "field:"+m.Token))):
-				if commaOK(a) || commaOK(bb) {
-					need["token equal"] = true
-				}
+				need["token equal"] = true
 			case l.Truth && ((has(oa, "record") && has(ob, "cfg:InstanceID")) || (has(ob, "record") && has(oa, "cfg:InstanceID"))):
-				if commaOK(a) || commaOK(bb) {
-					need["id equal"] = true
-				}
+				need["id equal"] = true
 			}
 		}
 		var missing []string
